@@ -272,3 +272,421 @@ Proof.
   intros c s t e s' I H. unfold Istarted in *.
   scases H t; simpl in *; rw_facts; simpl in *; rewrite ?app_nil_r in *; try rewrite <- app_assoc; try congruence; auto.
 Qed.
+
+(* ---- I8: inside the discard loop of schedule_only the shutdown flag is still clear ---- *)
+Definition Iodisc (s : st) : Prop :=
+  forall t, t <> W -> owner s = Some t -> cp (cl s t) = ODisc \/ cp (cl s t) = DDisc -> shut s = false.
+
+Ltac per_thread I u Hu :=
+  simpl in *; unfold upd in *;
+  try (match goal with |- context [u =? ?t] => destruct (Nat.eqb_spec u t); [subst u|] end);
+  try (match goal with H : context [u =? ?t] |- _ => destruct (Nat.eqb_spec u t); [subst u|] end);
+  simpl in *.
+
+Lemma Iodisc_step : forall c s t e s', Iodisc s -> step c s t e = Some s' -> Iodisc s'.
+Proof.
+  intros c s t e s' I H. unfold Iodisc in *.
+  scases H t; intros u Hu Ho Hc; per_thread I u Hu; rw_facts;
+    try (destruct Hc as [Hc|Hc]; discriminate Hc); try discriminate; try congruence;
+    try (apply (I u Hu); congruence); auto; try (eapply I; eauto; congruence).
+Qed.
+
+(* ---- I9 (variant with the re-check): once the worker has left its loop the flag is set and the queue stays empty ---- *)
+Definition Idead (c : cfg) (s : st) : Prop :=
+  recheck c = true -> wpc s = WExit \/ wpc s = WDead -> shut s = true /\ queue s = [].
+
+Lemma Idead_step : forall c s t e s', Iodisc s -> Idead c s -> step c s t e = Some s' -> Idead c s'.
+Proof.
+  intros c s t e s' IO I H. unfold Idead in *. intros Hr Hw.
+  scases H t; simpl in *; rw_facts;
+    try (destruct Hw as [Hw|Hw]; discriminate Hw);
+    try (specialize (I Hr Hw); destruct I as [I1 I2]); rw_facts; auto; try congruence; try discriminate;
+    try (rewrite (IO t EW E0 (or_introl E)) in I1; discriminate I1).
+Qed.
+
+(* ---- I10: pthread_join returns only after the worker thread has finished ---- *)
+Definition Ijoin (s : st) : Prop :=
+  forall t, t <> W -> cp (cl s t) = DJoined \/ cp (cl s t) = DFreed -> wpc s = WDead.
+
+Lemma Ijoin_step : forall c s t e s', Ijoin s -> step c s t e = Some s' -> Ijoin s'.
+Proof.
+  intros c s t e s' I H. unfold Ijoin in *.
+  scases H t; intros u Hu Hc; per_thread I u Hu; rw_facts;
+    try (destruct Hc as [Hc|Hc]; discriminate Hc); try reflexivity;
+    try (rewrite <- (I u Hu Hc); congruence); try (eapply I; eauto; fail);
+    try (assert (X := I u Hu Hc); congruence).
+Qed.
+
+(* ---- I11: only a non-waiting shutdown drops tasks ---- *)
+Definition Idw (s : st) : Prop :=
+  match disc s with
+  | [] => True
+  | _ => if shut s then shut_wait s = false
+         else match owner s with Some t => if t =? W then False else cp (cl s t) = DDisc | None => False end
+  end.
+
+Lemma Idw_step : forall c s t e s', Iodisc s -> Idw s -> step c s t e = Some s' -> Idw s'.
+Proof.
+  intros c s t e s' IO I H. unfold Idw in *.
+  scases H t; simpl in *; destruct (disc s) eqn:ED; simpl in *; auto; rw_facts; simpl in *;
+    try (destruct (shut s) eqn:ES; [exact I|]); try destr_owner; unfold upd; rw_facts; simpl in *; eqbs; simpl in *;
+    rw_facts; try contradiction; try discriminate; try congruence; auto;
+    repeat match goal with H : shut _ = _ |- _ => rewrite H in * end; auto;
+    try (rewrite (IO t EW E0 (or_intror E)); reflexivity);
+    try (destruct (queue s); simpl; auto).
+Qed.
+
+(* ---- I12: a call that is about to report success has linked its task; accepted tasks were linked ---- *)
+Definition Iaccpc (s : st) : Prop :=
+  forall t, t <> W ->
+    match cp (cl s t) with Enq | Bc | Ret _ true => In (tk (cl s t)) (enq s) | _ => True end.
+Definition Iacc (s : st) : Prop := forall x, In x (acc s) -> In x (enq s).
+
+Lemma Iaccpc_step : forall c s t e s', Iaccpc s -> step c s t e = Some s' -> Iaccpc s'.
+Proof.
+  intros c s t e s' I H. unfold Iaccpc in *.
+  scases H t; intros u Hu; specialize (I u Hu); per_thread I u Hu; rw_facts; auto;
+    try (apply in_or_app; simpl; auto; fail);
+    try (destruct (cp (cl s u)); auto; try (destruct sched; auto); apply in_or_app; auto).
+Qed.
+
+Lemma Iacc_step : forall c s t e s', Iaccpc s -> Iacc s -> step c s t e = Some s' -> Iacc s'.
+Proof.
+  intros c s t e s' IP I H. unfold Iacc in *.
+  scases H t; simpl in *; intros y Hy; try (apply in_or_app; left); auto;
+    try (apply in_app_or in Hy; destruct Hy as [Hy|[Hy|[]]]); auto;
+    try (subst y; assert (X := IP t EW); rewrite E in X; exact X).
+Qed.
+
+(* ---- I13: FIFO: the tasks that were not dropped leave the queue in the order in which they were linked ---- *)
+Definition keep (E : list task) (x : task) : bool := negb (memb x E).
+Definition excl (s : st) : list task := disc s ++ repl s.
+Definition Ififo (s : st) : Prop := filter (keep (excl s)) (enq s) = done s ++ held s ++ queue s.
+
+Lemma memb_app : forall z a b, memb z (a ++ b) = memb z a || memb z b.
+Proof. intros. unfold memb. apply existsb_app. Qed.
+
+Lemma filter_filter : forall A (f g : A -> bool) l, filter f (filter g l) = filter (fun x => g x && f x) l.
+Proof.
+  induction l as [|a l IH]; simpl; [reflexivity|]. destruct (g a); simpl; [destruct (f a)|]; rewrite IH; reflexivity.
+Qed.
+
+Lemma filter_all : forall A (f : A -> bool) l, (forall x, In x l -> f x = true) -> filter f l = l.
+Proof.
+  induction l as [|a l IH]; simpl; intros H; [reflexivity|]. rewrite (H a (or_introl eq_refl)). f_equal. apply IH. auto.
+Qed.
+
+Lemma filter_none : forall A (f : A -> bool) l, (forall x, In x l -> f x = false) -> filter f l = [].
+Proof.
+  induction l as [|a l IH]; simpl; intros H; [reflexivity|]. rewrite (H a (or_introl eq_refl)). apply IH. auto.
+Qed.
+
+Lemma fifo_drop : forall E E' l a q b,
+  filter (keep E) l = a ++ q ++ b ->
+  (forall z, memb z E' = memb z E || memb z q) ->
+  (forall z, In z q -> ~ In z a /\ ~ In z b) ->
+  filter (keep E') l = a ++ b.
+Proof.
+  intros E E' l a q b Hf HE Hd.
+  assert (X : filter (keep E') l = filter (keep q) (filter (keep E) l)).
+  { rewrite filter_filter. apply filter_ext. intros z. unfold keep. rewrite HE. rewrite negb_orb. reflexivity. }
+  rewrite X, Hf, !filter_app.
+  rewrite (filter_all _ (keep q) a), (filter_none _ (keep q) q), (filter_all _ (keep q) b); [reflexivity| | |].
+  - intros z Hz. unfold keep. apply negb_true_iff, memb_false. intros Hq. apply (proj2 (Hd z Hq)). exact Hz.
+  - intros z Hz. unfold keep. apply negb_false_iff, memb_true. exact Hz.
+  - intros z Hz. unfold keep. apply negb_true_iff, memb_false. intros Hq. apply (proj1 (Hd z Hq)). exact Hz.
+Qed.
+
+Lemma cnt_pos_In : forall x l, In x l <-> cnt_in x l >= 1.
+Proof. intros. unfold cnt_in. rewrite (count_occ_In Nat.eq_dec). lia. Qed.
+
+Lemma cnt_zero_notIn : forall x l, cnt_in x l = 0 -> ~ In x l.
+Proof. intros x l H Hin. apply cnt_pos_In in Hin. lia. Qed.
+
+Lemma cnt_app : forall x a b, cnt_in x (a ++ b) = cnt_in x a + cnt_in x b.
+Proof. intros. unfold cnt_in. apply count_occ_app. Qed.
+
+Lemma part_disj : forall s, Ipart s -> forall z,
+  cnt_in z (queue s) + cnt_in z (held s) + cnt_in z (done s) + cnt_in z (disc s) + cnt_in z (repl s) <= 1.
+Proof.
+  intros s I z. destruct (I z) as [P Q]. unfold parts in P. rewrite !cnt_app in P. lia.
+Qed.
+
+Lemma excl_in_enq : forall s, Ipart s -> forall z, In z (excl s) -> In z (enq s).
+Proof.
+  intros s I z Hz. destruct (I z) as [P Q]. unfold parts in P. rewrite !cnt_app in P.
+  apply cnt_pos_In. unfold excl in Hz. apply in_app_or in Hz. destruct Hz as [Hz|Hz]; apply cnt_pos_In in Hz; lia.
+Qed.
+
+
+
+Lemma queue_disj : forall s, Ipart s -> forall z, In z (queue s) -> ~ In z (done s ++ held s) /\ ~ In z (@nil task).
+Proof.
+  intros s I z Hz. split; [|intros []]. intros Hin. assert (D := part_disj s I z).
+  apply cnt_pos_In in Hz. apply in_app_or in Hin. destruct Hin as [Hin|Hin]; apply cnt_pos_In in Hin; lia.
+Qed.
+
+Lemma head_disj : forall s x q', Ipart s -> queue s = x :: q' ->
+  forall z, In z [x] -> ~ In z (done s ++ held s) /\ ~ In z q'.
+Proof.
+  intros s x q' I Hq z [<-|[]]. assert (D := part_disj s I x). rewrite Hq in D. unfold cnt_in in D at 1. simpl in D.
+  destruct (Nat.eq_dec x x) as [_|N]; [|congruence]. fold (cnt_in x q') in D. split.
+  - intros Hin. apply in_app_or in Hin. destruct Hin as [Hin|Hin]; apply cnt_pos_In in Hin; lia.
+  - intros Hin. apply cnt_pos_In in Hin. lia.
+Qed.
+
+Lemma Ififo_step : forall c s t e s', Ifresh s -> Ipart s -> Ififo s -> step c s t e = Some s' -> Ififo s'.
+Proof.
+  intros c s t e s' IF IP I H. apply step_qeff in H. unfold Ififo in *.
+  destruct H as [H1 H2 H3 H4 H5 H6 | x Ht Hx Hp H1 H2 H3 H4 H5 H6 | x Ht Hx Hp H1 H2 H3 H4 H5 H6
+                | x H1 H2a H2 H3 H4 H5 H6 | x H1 H2a H2 H3 H4 H5 H6 | x H1 H2 H3 H4 H5 H6 | x H1 H2 H3 H4 H5 H6
+                | H1 H2 H3 H4 H5 H6]; unfold excl in *; rewrite ?H2, ?H3, ?H4, ?H5, ?H6.
+  - rewrite H1. exact I.
+  - (* enqueue *)
+    assert (Z : ~ In x (enq s)) by (subst x; apply IF; assumption).
+    rewrite H1, filter_app, I. simpl.
+    replace (keep (disc s ++ repl s) x) with true.
+    + rewrite <- !app_assoc. reflexivity.
+    + symmetry. unfold keep. apply negb_true_iff, memb_false. intros Hin. apply Z. apply (excl_in_enq s IP). exact Hin.
+  - (* schedule_only without callback: the whole queue is replaced *)
+    assert (Z : ~ In x (enq s)) by (subst x; apply IF; assumption).
+    rewrite H1, filter_app.
+    rewrite (fifo_drop (disc s ++ repl s) (disc s ++ repl s ++ queue s) (enq s) (done s ++ held s) (queue s) []).
+    + simpl. replace (keep (disc s ++ repl s ++ queue s) x) with true; [rewrite app_nil_r, <- app_assoc; reflexivity|].
+      symmetry. unfold keep. apply negb_true_iff, memb_false. intros Hin. apply Z.
+      rewrite app_assoc in Hin. apply in_app_or in Hin. destruct Hin as [Hin|Hin]; [apply (excl_in_enq s IP); exact Hin|].
+      destruct (IP x) as [P Q]. unfold parts in P. rewrite !cnt_app in P. apply cnt_pos_In. apply cnt_pos_In in Hin. lia.
+    + rewrite I, app_nil_r, <- app_assoc. reflexivity.
+    + intros z. rewrite !memb_app. rewrite orb_assoc. reflexivity.
+    + apply queue_disj. exact IP.
+  - (* dequeue *) rewrite I, H1, H2a. reflexivity.
+  - (* done *) rewrite I, H1, H2a. rewrite <- !app_assoc. reflexivity.
+  - (* discard by shutdown *)
+    rewrite (fifo_drop (disc s ++ repl s) ((disc s ++ [x]) ++ repl s) (enq s) (done s ++ held s) [x] (queue s')).
+    + rewrite <- app_assoc. reflexivity.
+    + rewrite I, H1, <- app_assoc. reflexivity.
+    + intros z. rewrite !memb_app. simpl. rewrite orb_false_r. destruct (memb z (disc s)), (z =? x), (memb z (repl s)); reflexivity.
+    + apply head_disj; assumption.
+  - (* discard by schedule_only *)
+    rewrite (fifo_drop (disc s ++ repl s) (disc s ++ repl s ++ [x]) (enq s) (done s ++ held s) [x] (queue s')).
+    + rewrite <- app_assoc. reflexivity.
+    + rewrite I, H1, <- app_assoc. reflexivity.
+    + intros z. rewrite !memb_app. rewrite orb_assoc. reflexivity.
+    + apply head_disj; assumption.
+  - (* shutdown drops the rest of the queue at once *)
+    rewrite H1.
+    rewrite (fifo_drop (disc s ++ repl s) ((disc s ++ queue s) ++ repl s) (enq s) (done s ++ held s) (queue s) []).
+    + rewrite !app_nil_r. reflexivity.
+    + rewrite I, app_nil_r, <- app_assoc. reflexivity.
+    + intros z. rewrite !memb_app. destruct (memb z (disc s)), (memb z (queue s)), (memb z (repl s)); reflexivity.
+    + apply queue_disj. exact IP.
+Qed.
+
+(* ======== the invariant and its consequences ======== *)
+Record Inv (c : cfg) (s : st) : Prop := mkInv {
+  i_cnt : Icnt s; i_lim : Ilim c s; i_w2b : Iw2b s; i_nlw : Inlw s; i_used : Iused s; i_fresh : Ifresh s;
+  i_part : Ipart s; i_started : Istarted s; i_odisc : Iodisc s; i_dead : Idead c s; i_join : Ijoin s; i_dw : Idw s;
+  i_accpc : Iaccpc s; i_acc : Iacc s; i_fifo : Ififo s }.
+
+Lemma Inv_init : forall c, Inv c init.
+Proof.
+  intros c. constructor.
+  - reflexivity.
+  - right. simpl. lia.
+  - intros H. discriminate H.
+  - intros [].
+  - intros x [].
+  - intros t _ H. discriminate H.
+  - intros x. split; [reflexivity|simpl; lia].
+  - reflexivity.
+  - intros t _ H. discriminate H.
+  - intros _ [H|H]; discriminate H.
+  - intros t _ [H|H]; discriminate H.
+  - exact I.
+  - intros t _. exact I.
+  - intros x [].
+  - reflexivity.
+Qed.
+
+Lemma Inv_step : forall c s t e s', Inv c s -> step c s t e = Some s' -> Inv c s'.
+Proof.
+  intros c s t e s' [] H. constructor.
+  - eapply Icnt_step; eauto.
+  - eapply Ilim_step; eauto.
+  - eapply Iw2b_step; eauto.
+  - eapply Inlw_step; eauto.
+  - eapply Iused_step; eauto.
+  - eapply Ifresh_step; eauto.
+  - eapply Ipart_step; eauto.
+  - eapply Istarted_step; eauto.
+  - eapply Iodisc_step; eauto.
+  - eapply Idead_step; eauto.
+  - eapply Ijoin_step; eauto.
+  - eapply Idw_step; eauto.
+  - eapply Iaccpc_step; eauto.
+  - eapply Iacc_step; eauto.
+  - eapply Ififo_step; eauto.
+Qed.
+
+Theorem Inv_R : forall c s, R c s -> Inv c s.
+Proof. intros c s H. eapply invariant_reachable; [apply Inv_init|apply Inv_step|exact H]. Qed.
+
+(* ---- theorems ---- *)
+Lemma cnt_le1_NoDup : forall l, (forall x, cnt_in x l <= 1) -> NoDup l.
+Proof. intros l H. apply (NoDup_count_occ Nat.eq_dec). exact H. Qed.
+
+Theorem accepted_partition : forall c s, R c s ->
+  (forall x, In x (acc s) -> In x (enq s)) /\
+  (forall x, In x (enq s) <-> In x (queue s ++ held s ++ done s ++ disc s ++ repl s)) /\
+  NoDup (queue s ++ held s ++ done s ++ disc s ++ repl s) /\ NoDup (enq s).
+Proof.
+  intros c s H. apply Inv_R in H. destruct H. split; [exact i_acc0|]. split; [|split].
+  - intros x. destruct (i_part0 x) as [P _]. rewrite !cnt_pos_In. fold (parts s). lia.
+  - apply cnt_le1_NoDup. intros x. destruct (i_part0 x) as [P Q]. fold (parts s). lia.
+  - apply cnt_le1_NoDup. intros x. destruct (i_part0 x) as [P Q]. exact Q.
+Qed.
+
+Theorem status_monotone : forall c s t e s', step c s t e = Some s' -> forall x,
+  (In x (done s) -> In x (done s')) /\ (In x (disc s) -> In x (disc s')) /\ (In x (repl s) -> In x (repl s')) /\
+  (In x (held s) -> In x (held s') \/ In x (done s')) /\
+  (In x (queue s) -> In x (queue s') \/ In x (held s') \/ In x (disc s') \/ In x (repl s')).
+Proof.
+  intros c s t e s' H x. apply step_qeff in H.
+  destruct H as [H1 H2 H3 H4 H5 H6 | y Ht Hx Hp H1 H2 H3 H4 H5 H6 | y Ht Hx Hp H1 H2 H3 H4 H5 H6
+                | y H1 H2a H2 H3 H4 H5 H6 | y H1 H2a H2 H3 H4 H5 H6 | y H1 H2 H3 H4 H5 H6 | y H1 H2 H3 H4 H5 H6
+                | H1 H2 H3 H4 H5 H6]; rewrite ?H2, ?H3, ?H4, ?H5, ?H6; try rewrite H2a;
+    repeat split; intros Hin; try rewrite H1 in *; rewrite ?in_app_iff in *; simpl in *;
+    try (rewrite H1 in Hin; simpl in Hin); intuition (subst; auto).
+Qed.
+
+Theorem executed_at_most_once : forall c s, R c s -> NoDup (started s).
+Proof.
+  intros c s H. apply Inv_R in H. destruct H. apply cnt_le1_NoDup. intros x.
+  assert (D := part_disj s i_part0 x). rewrite i_started0, cnt_app. unfold held in D.
+  destruct (wpc s); simpl in *; try lia.
+Qed.
+
+Theorem stw_fifo : forall c s, R c s ->
+  (exists rest, filter (keep (disc s ++ repl s)) (enq s) = started s ++ rest) /\
+  (forall x, In x (started s) -> ~ In x (disc s ++ repl s)).
+Proof.
+  intros c s H. apply Inv_R in H. destruct H. split.
+  - unfold Ififo, excl in i_fifo0. rewrite i_fifo0, i_started0. unfold held.
+    destruct (wpc s); rewrite ?app_nil_r; try (eexists; rewrite <- app_assoc; reflexivity);
+      try (exists (queue s); reflexivity); try (eexists; reflexivity).
+  - intros x Hx Hd. assert (D := part_disj s i_part0 x). rewrite i_started0 in Hx.
+    apply in_app_or in Hx. apply in_app_or in Hd.
+    assert (In x (done s) \/ In x (held s)) as [A|A].
+    { destruct Hx as [Hx|Hx]; [left; exact Hx|right]. unfold held. destruct (wpc s); try contradiction. exact Hx. }
+    + apply cnt_pos_In in A. destruct Hd as [B|B]; apply cnt_pos_In in B; lia.
+    + apply cnt_pos_In in A. destruct Hd as [B|B]; apply cnt_pos_In in B; lia.
+Qed.
+
+Theorem limit_respected : forall c s, R c s -> limit c > 0 -> length (queue s) <= limit c.
+Proof. intros c s H L. apply Inv_R in H. destruct H. destruct i_lim0; lia. Qed.
+
+Theorem no_lost_wakeup : forall c s, R c s -> owner s = None -> In W (waitc s) -> queue s = [].
+Proof. intros c s H. apply Inv_R in H. destruct H. apply no_lost_wakeup_inv; assumption. Qed.
+
+Theorem discarded_never_started : forall c s, R c s ->
+  NoDup (disc s ++ repl s) /\
+  forall x, In x (disc s ++ repl s) ->
+    In x (enq s) /\ ~ In x (started s) /\ ~ In x (done s) /\ ~ In x (queue s) /\ ~ In x (held s).
+Proof.
+  intros c s H. destruct (stw_fifo c s H) as [_ F]. apply Inv_R in H. destruct H. split.
+  - apply cnt_le1_NoDup. intros x. assert (D := part_disj s i_part0 x). rewrite cnt_app. lia.
+  - intros x Hx. assert (D := part_disj s i_part0 x). split; [apply (excl_in_enq s i_part0); exact Hx|].
+    split; [intros Hs; exact (F x Hs Hx)|].
+    apply in_app_or in Hx.
+    assert (cnt_in x (disc s) + cnt_in x (repl s) >= 1) by (destruct Hx as [B|B]; apply cnt_pos_In in B; lia).
+    repeat split; intros A; apply cnt_pos_In in A; lia.
+Qed.
+
+(* the transitions of iwstw_shutdown(wait_for_all = false) report exactly the queue, head first *)
+Theorem shutdown_discard_step : forall c s t x s', step c s t (EDiscard x) = Some s' -> fn (cl s t) = 3 ->
+  cp (cl s t) = Locked \/ cp (cl s t) = DDisc ->
+  t <> W /\ has_cb c = true /\ queue s = x :: queue s' /\ disc s' = disc s ++ [x] /\ shut s' = shut s.
+Proof.
+  intros c s t x s' H F Hc. scases H t; simpl in *; try congruence; try (destruct Hc; congruence);
+    repeat split; auto; try congruence.
+Qed.
+
+Theorem shutdown_nowait_flag_step : forall c s t s', step c s t (EBcast 0) = Some s' -> t <> W -> fn (cl s t) = 3 ->
+  (cp (cl s t) = Locked /\ wf (cl s t) = false /\ shut s = false) \/ cp (cl s t) = DDisc ->
+  queue s' = [] /\ disc s' = disc s ++ queue s /\ shut s' = true /\ shut_wait s' = false /\ (has_cb c = true -> queue s = []).
+Proof.
+  intros c s t s' H Ht F Hc. scases H t; simpl in *; try congruence;
+    try (destruct Hc as [(A & B & C)|A]; congruence);
+    repeat split; auto; try congruence; rw_facts; rewrite ?app_nil_r; auto.
+Qed.
+
+Theorem shutdown_wait_flag_step : forall c s t s', step c s t (EBcast 0) = Some s' -> t <> W -> fn (cl s t) = 3 ->
+  cp (cl s t) = Locked -> wf (cl s t) = true -> shut s = false ->
+  queue s' = queue s /\ disc s' = disc s /\ shut s' = true /\ shut_wait s' = true.
+Proof.
+  intros c s t s' H Ht F Hc Hw Hs. scases H t; simpl in *; try congruence; repeat split; auto.
+Qed.
+
+(* a full bounded queue rejects or blocks as configured *)
+Theorem full_queue_rejects_or_blocks : forall c s t e s', step c s t e = Some s' -> t <> W -> fn (cl s t) = 0 ->
+  cp (cl s t) = Locked \/ cp (cl s t) = Woken -> shut s = false -> full c s = true ->
+  (blocking c = false -> e = EUnlock /\ cp (cl s' t) = Ret RC_OVERFLOW false /\ enq s' = enq s) /\
+  (blocking c = true -> e = EWait 1 /\ cp (cl s' t) = CWait /\ In t (waitq s') /\ blocked s' = true /\ enq s' = enq s).
+Proof.
+  intros c s t e s' H Ht F Hc Hs Hf. scases H t; simpl in *; try (destruct Hc; congruence); try congruence;
+    unfold upd; rewrite ?Nat.eqb_refl; simpl; split; intros B; try congruence; repeat split; auto.
+Qed.
+
+(* variant with the re-check: once the worker has gone every linked task has run or was dropped and reported *)
+Theorem worker_gone_all_settled : forall c s, R c s -> recheck c = true -> wpc s = WExit \/ wpc s = WDead ->
+  shut s = true /\ queue s = [] /\ forall x, In x (enq s) -> In x (done s) \/ In x (disc s) \/ In x (repl s).
+Proof.
+  intros c s H Hr Hw. destruct (accepted_partition c s H) as (_ & P & _). apply Inv_R in H. destruct H.
+  destruct (i_dead0 Hr Hw) as [A B]. split; [exact A|]. split; [exact B|]. intros x Hx. apply P in Hx. rewrite B in Hx.
+  assert (Hh : held s = []) by (unfold held; destruct Hw as [Hw|Hw]; rewrite Hw; reflexivity).
+  rewrite Hh in Hx. simpl in Hx. rewrite !in_app_iff in Hx. tauto.
+Qed.
+
+Theorem shutdown_wait_drains : forall c s t, R c s -> recheck c = true -> t <> W ->
+  cp (cl s t) = DJoined \/ cp (cl s t) = DFreed ->
+  (forall x, In x (acc s) -> In x (done s) \/ In x (disc s) \/ In x (repl s)) /\
+  (shut_wait s = true -> disc s = [] /\ forall x, In x (acc s) -> In x (done s) \/ In x (repl s)).
+Proof.
+  intros c s t H Hr Ht Hc. assert (I := Inv_R c s H). destruct I.
+  assert (Hw : wpc s = WDead) by (eapply i_join0; eauto).
+  destruct (worker_gone_all_settled c s H Hr (or_intror Hw)) as (A & B & C).
+  assert (X : forall x, In x (acc s) -> In x (done s) \/ In x (disc s) \/ In x (repl s)) by (intros x Hx; apply C, i_acc0, Hx).
+  split; [exact X|]. intros Hsw.
+  assert (D : disc s = []).
+  { unfold Idw in i_dw0. destruct (disc s); [reflexivity|]. rewrite A in i_dw0. congruence. }
+  split; [exact D|]. intros x Hx. destruct (X x Hx) as [Y|[Y|Y]]; auto. rewrite D in Y. contradiction.
+Qed.
+
+Theorem accepted_eventually : forall c s, R c s -> recheck c = true -> w_dead s = true ->
+  forall x, In x (acc s) -> In x (done s) \/ In x (disc s) \/ In x (repl s).
+Proof.
+  intros c s H Hr Hw x Hx. assert (I := Inv_R c s H). destruct I.
+  assert (wpc s = WDead) by (unfold w_dead in Hw; destruct (wpc s); try discriminate; reflexivity).
+  destruct (worker_gone_all_settled c s H Hr (or_intror H0)) as (_ & _ & C). apply C, i_acc0, Hx.
+Qed.
+
+(* the code as found (no re-check): the real event trace of the directed scenario `stw-blocked-submitter-after-shutdown`
+   (queue_limit 1, blocking, discard callback): task 2 is accepted, the worker has finished, shutdown has returned,
+   every thread is at rest, and task 2 is neither done nor reported *)
+Definition lost_cfg : cfg := mkcfg 1 true true false.
+Definition lost_trace : list (tid * ev) :=
+  [(10, ECall 0 0 false); (10, ELock); (10, EEnq 0); (10, EBcast 0); (10, EUnlock); (10, ERet 0 true);
+   (0, ELock); (0, EDeq 0); (0, EUnlock); (0, ERun 0);
+   (10, ECall 0 1 false); (10, ELock); (10, EEnq 1); (10, EBcast 0); (10, EUnlock); (10, ERet 0 true);
+   (10, ECall 0 2 false); (10, ELock); (10, EWait 1);
+   (20, ECall 3 0 false); (20, ELock); (20, EDiscard 1); (20, EBcast 0); (20, EBcast 1); (20, EUnlock);
+   (0, EDone 0); (0, ELock); (0, EUnlock); (0, EExit);
+   (10, EWake 1); (10, EEnq 2); (10, EBcast 0); (10, EUnlock); (10, ERet 0 true);
+   (20, EJoin 0); (20, EFree); (20, ERet 0 false)].
+
+Theorem accepted_eventually_refuted : exists s,
+  run st (step lost_cfg) init lost_trace = Some s /\ w_dead s = true /\ cl_idle s 10 = true /\ cl_idle s 20 = true /\
+  In 2 (acc s) /\ ~ In 2 (done s) /\ ~ In 2 (disc s) /\ ~ In 2 (repl s) /\ queue s = [2] /\ freed s = true.
+Proof.
+  eexists. split; [vm_compute; reflexivity|]. vm_compute. repeat split; auto; intuition discriminate.
+Qed.
